@@ -1,6 +1,7 @@
 package mon
 
 import (
+	"math"
 	"fmt"
 	"math/rand"
 	"strconv"
@@ -20,7 +21,7 @@ func init() { register(c08{}) }
 func (c08) Meta() core.Meta {
 	return core.Meta{
 		ID: "C08", Level: "exploration",
-		Rule:        "case i = f(seed,i): JSON/XML-shaped Map over a 5-key alphabet (keys recur at several depths, inside lists, beside themselves; a list directly inside a list with low probability) + a key (present/absent/'*') + 0..3 sub-key conditions drawn from real sibling keys and values (string/num/bool typed, '*' wildcard, '!' negation; default ':' and alternative '|' separator). Monitors: ValuesForKey == reference search (multiset); PathsForKey == reference path set, no duplicates; PathForKeyShortest minimal; union over paths of ValuesForPath == ValuesForKey (conservation); filter law result(S) == {v in result(∅): map ∧ pred_S(v)} for ValuesForKey and ValuesForPath, with a three-valued predicate (negated condition on an absent key is unspecified). Non-trivial: unfiltered result non-empty; distinct by hash(map,key,conditions).",
+		Rule:        "case i = f(seed,i): JSON/XML-shaped Map over a 7-key alphabet - in 1/4 of the cases the hostile alphabet (digit strings, blank-edged names beside their twins, names with '/', '#attr', '_seq') - (keys recur at several depths, inside lists, beside themselves; a list directly inside a list with low probability) + a key (present/absent/'*') + 0..3 sub-key conditions drawn from real sibling keys and values (string/num/bool typed, '*' wildcard, '!' negation; numeric conditions on real sibling values or on near misses of them - next representable float, +-1e-10 -; default ':' and alternative '|' separator). Monitors: ValuesForKey == reference search (multiset); PathsForKey == reference path set, no duplicates; PathForKeyShortest minimal; union over paths of ValuesForPath == ValuesForKey (conservation); filter law result(S) == {v in result(∅): map ∧ pred_S(v)} for ValuesForKey and ValuesForPath, with a three-valued predicate (negated condition on an absent key is unspecified). Non-trivial: unfiltered result non-empty; distinct by hash(map,key,conditions).",
 		Assumptions: []string{"reference search / predicate written from the documentation", "a negated typed condition on an absent key is treated as unspecified (docs silent)"},
 		Anchors:     []string{"Map.ValuesForKey", "hasKey", "Map.ValueForKey", "Map.PathsForKey", "Map.PathForKeyShortest", "hasKeyPath", "hasSubKeys", "getSubKeyMap", "SetFieldSeparator"},
 		Floors:      map[string]int64{"key-at-2+-depths": 300, "filter:nonempty-unfiltered": 1000, "filter:some-pass-some-fail": 100, "cond:neg": 300, "cond:wild": 300, "cond:typed": 300, "altsep": 300, "paths>=2": 300, "crossapi:checked": 10000},
@@ -41,7 +42,7 @@ func c08scalar(r *rand.Rand) interface{} {
 	switch r.Intn(5) {
 	case 0:
 		if r.Intn(3) == 0 {
-			return []float64{0.1, 19.99, 16777217, 1e-7, 2.5}[r.Intn(5)] // not all exactly representable in 32 bits
+			return []float64{0.1, 19.99, 16777217, 1e-7, 2.5, 5e-324, 1e-12, 0.3, 0.30000000000000004, 0}[r.Intn(10)] // not all exactly representable in 32 bits; some closer than any tolerance
 		}
 		return float64(r.Intn(3))
 	case 1:
@@ -213,6 +214,10 @@ func genConds(r *rand.Rand, sep string, sample []interface{}) ([]cond, []string)
 			}
 			if rf, ok := real.(float64); ok && r.Intn(3) != 0 {
 				f = rf
+				if r.Intn(4) == 0 {
+					// near miss: a different number closer to the real one than any tolerance
+					f = []float64{math.Nextafter(rf, math.Inf(1)), math.Nextafter(rf, math.Inf(-1)), rf + 1e-10, rf - 3e-12}[r.Intn(4)]
+				}
 			}
 			c.val = f
 			spec += sep + strconv.FormatFloat(f, 'g', -1, 64) + sep + []string{"num", "float", "number", "numeric", "float64"}[r.Intn(5)]
@@ -293,7 +298,8 @@ func checkFilterLaw(unfiltered, got []interface{}, conds []cond) (ok bool, nPass
 
 func (c08) Case(c *core.Ctx) {
 	r := c.R
-	g := jv.GenOpt{Keys: c07keys, MaxFan: 3, WideProb: 25, ListInList: r.Intn(12) == 0, EmptyConts: true, Nulls: true, Scalars: c08scalar}.Fresh()
+	keys := keyAlphabet(r, c07keys)
+	g := jv.GenOpt{Keys: keys, MaxFan: 3, WideProb: 25, ListInList: r.Intn(12) == 0, EmptyConts: true, Nulls: true, Scalars: c08scalar}.Fresh()
 	root := jv.M{"doc": g.Value(r, 1+r.Intn(5), false)}
 	if r.Intn(5) == 0 {
 		root = g.Map(r, 1+r.Intn(4))
@@ -303,10 +309,14 @@ func (c08) Case(c *core.Ctx) {
 		root = jv.M{"configuration-section": root, "x": jv.M{"y": g.Value(r, 2, false)}}
 	}
 	m := mxj.Map(root)
-	if ambientDecoderOptions(c, 6) {
+	oneIn := 6
+	if &keys[0] == &hostileKeys[0] {
+		oneIn = 2 // digit-string keys matter most when the dot-notation switch is on
+	}
+	if ambientDecoderOptions(c, oneIn) {
 		defer ResetDefaults()
 	}
-	k := c07keys[r.Intn(len(c07keys))]
+	k := keys[r.Intn(len(keys))]
 	switch r.Intn(10) {
 	case 0:
 		k = "*"
@@ -410,7 +420,7 @@ func (c08) Case(c *core.Ctx) {
 	// ---- filter law ----
 	sep := ":"
 	if r.Intn(3) == 0 {
-		sep = []string{"|", ";", "::"}[r.Intn(3)]
+		sep = []string{"|", ";", "::", "=>", "§"}[r.Intn(5)]
 		mxj.SetFieldSeparator(sep)
 		defer mxj.SetFieldSeparator()
 		c.Count("altsep")
